@@ -295,6 +295,18 @@ def exponent(ctx):
   # the opaque method call has the receiver as first positional argument
   got = r
   ok = cmpr.same(got, exp) or _exp_alt(ev, got, cmpr, selfp)
+  if not ok:
+    # however it is written: on concrete answers of should_precondition_dims() the function must fold to 2 x (number of True)
+    wit = [[True], [False], [True, True], [True, False], [False, True, True], [True, False, True, True], []]
+    folded = []
+    for w_ in wit:
+      evw = evaluator(m, summaries={'should_precondition_dims': (lambda e_, b_, r_, w_=w_: T('list', *[const(x_) for x_ in w_]))})
+      try:
+        rw = evw.run(fi)
+      except Exception:
+        rw = NONE
+      folded.append(is_const(rw) and not isinstance(cval(rw), bool) and cval(rw) == 2 * sum(w_))
+    ok = all(folded)
   ctx.ob('C02.R2', fi.short, 'exponent', ok,
          f'exponent must be 2 x (number of preconditioned dims); got `{cmpr.fmt(got)}`', ctx.loc(fi),
          sample='2 * sum(should_precondition_dims())')
